@@ -42,6 +42,21 @@ def class_literals(cls):
     return {n.value for n in ast.walk(cls) if isinstance(n, ast.Constant) and isinstance(n.value, (bytes, str))}
 
 
+def _fold(e):
+    """Fold integer constant arithmetic (2 + 4, 3 * 2, len(b"done\\n")) into a Constant."""
+    if isinstance(e, ast.BinOp):
+        l, r = _fold(e.left), _fold(e.right)
+        if isinstance(l, ast.Constant) and isinstance(r, ast.Constant) and isinstance(l.value, int) and isinstance(r.value, int):
+            ops = {ast.Add: lambda a, b: a + b, ast.Sub: lambda a, b: a - b, ast.Mult: lambda a, b: a * b}
+            f = ops.get(type(e.op))
+            if f is not None:
+                return ast.copy_location(ast.Constant(value=f(l.value, r.value)), e)
+        return ast.copy_location(ast.BinOp(left=l, op=e.op, right=r), e)
+    if isinstance(e, ast.Call) and isinstance(e.func, ast.Name) and e.func.id == "len" and len(e.args) == 1 and isinstance(e.args[0], ast.Constant) and isinstance(e.args[0].value, (bytes, str)) and not e.keywords:
+        return ast.copy_location(ast.Constant(value=len(e.args[0].value)), e)
+    return e
+
+
 def returns_with_conditions(fn):
     """[(Return node, [(test_text, polarity)])] by walking the if/elif tree."""
     out = []
@@ -79,7 +94,7 @@ def run(ctx):
             trailer, tl = trailer
             ctx.check("R2-grammar-literal", where, trailer in lits and tl in (len(trailer), len(trailer) + 1), f"trailer literal {trailer!r} is what {cname} parses", message=f"{cname} no longer parses the trailer {trailer!r}: the bound table would be stale")
         for ret, conds in returns_with_conditions(fn):
-            v = ret.value
+            v = _fold(ret.value)
             ctext = " and ".join(("" if pol else "not ") + t for t, pol in conds) or "always"
             state = next((t for t, pol in reversed(conds) if pol and "state_accept" in t), "")
             desc = f"`return {norm(v)}` when {ctext}"
@@ -149,6 +164,21 @@ def run(ctx):
     fpr = repo.func(MD, "SmartServerPipeStreamMedium._read_bytes")
     rd = [c for c in calls_in(fpr) if call_attr(c) == "read"]
     ctx.check("R1-medium-never-reads-more", f"{MD}:SmartServerPipeStreamMedium._read_bytes", len(rd) == 1 and norm(rd[0].args[0]) == "desired_count", "the pipe medium reads exactly the count it is given")
+
+    # ---- R4 (shared with C29-R3): the decoder is positioned after a part before the handler sees it ----------
+    from ..cfg import assigns_to, build_cfg
+    from ..rules import calling
+
+    n_states = 0
+    for item in repo.cls(PF, "ProtocolThreeDecoder").body:
+        if isinstance(item, ast.FunctionDef) and any(call_recv(c) == "self.message_handler" and call_attr(c) != "protocol_error" for c in calls_in(item)):
+            n_states += 1
+            g = build_cfg(item)
+            hn = calling(g, recv="self.message_handler")
+            st = g.find(assigns_to("self.state_accept"))
+            ok, w = g.always_before(st, hn) if st else (False, None)
+            ctx.check("R4-state-before-handler", f"{PF}:ProtocolThreeDecoder.{item.name}", ok, "the decoder state is advanced before the message handler runs (a handler error cannot desynchronise the byte accounting)", message="the handler runs before the decoder state advanced: after a handler error the next part is read as a length prefix and next_read_size() asks for far more bytes than the message holds", witness=g.show_path(w) if w else None)
+    ctx.require(n_states >= 5, f"only {n_states} handler-calling decoder states found")
 
     # ---- R3 -----------------------------------------------------------------
     n_raise = 0
